@@ -43,6 +43,9 @@ def run(chk):
             else:
                 chk.unknown("C06.R5", site, detail)
     chk.floor("C06.R5", len(serial.flatten_classes(repo)), 5, "classes with __tensor_flatten__")
+    for ci_, base_, line_, names_ in serial.inherited_readers(repo):
+        chk.bad("C06.R5", f"{ci_.mod.rel}:{line_}", ci_.name, "reader inherited from a base that rebuilds the base class", f"{ci_.name} has its own constructor but inherits __tensor_unflatten__ from {base_.name}, which builds {names_}: a flattened {ci_.name} comes back as a {base_.name} wrapping the subclass's fields",
+                "any tensor of that class taken through __tensor_flatten__ / __tensor_unflatten__ (torch.compile, FakeTensor tracing, state_dict helpers)")
     quantizer_geometry(chk)
     if chk.pid == "C06":
         from ..report import AliasedCheck
